@@ -78,4 +78,90 @@ theorem reorder_perm {α : Type} (name : α → String) (xs : List α) (o : List
   rw [e] at this
   exact this
 
+/-! ### a cycle among the children is always a compilation error -/
+
+/-- the child-to-child wires -/
+def innerConns (conns : List (Endpoint × Endpoint)) : List (String × String) :=
+  conns.filterMap fun c =>
+    match c.1.routine, c.2.routine with
+    | some s, some t => some (s, t)
+    | _, _ => none
+
+/-- predecessors of a child, as `sorted_children_order` collects them -/
+def childPreds (conns : List (Endpoint × Endpoint)) (n : String) : List String :=
+  (((innerConns conns).filter (·.2 = n)).map (·.1)).eraseDups
+
+/-- the graph handed to the topological sorter -/
+def childGraph (names : List String) (conns : List (Endpoint × Endpoint)) : Graph.G :=
+  names.map fun n => (n, sortBy (· < ·) (childPreds conns n))
+
+/-- the "already in data-flow order?" scan of `sorted_children_order` -/
+def orderScan (conns : List (Endpoint × Endpoint)) (order : List String) (st : Bool × List String) : Bool × List String :=
+  order.foldl (fun (st : Bool × List String) c =>
+    if !st.1 then st
+    else if (childPreds conns c).any (fun p => !st.2.contains p) then (false, st.2)
+    else (true, c :: st.2)) st
+
+theorem sortedChildrenOrder_unfold (names ord : List String) (conns : List (Endpoint × Endpoint)) :
+    sortedChildrenOrder names ord conns =
+      if (orderScan conns ord (true, [])).1 then pure ord
+      else match Graph.staticOrder (childGraph names conns) with
+        | some o => pure o
+        | none => throw (.compilation "Connections between children form a cycle") := rfl
+
+theorem orderScan_false (conns : List (Endpoint × Endpoint)) : ∀ (order : List String) (vis : List String),
+    (orderScan conns order (false, vis)).1 = false
+  | [], _ => rfl
+  | c :: rest, vis => by
+    simp only [orderScan, List.foldl_cons, Bool.not_false, if_true]
+    exact orderScan_false conns rest vis
+
+theorem edge_childGraph (names : List String) (conns : List (Endpoint × Endpoint)) (e : String × String)
+    (h : e ∈ Graph.edges (childGraph names conns)) : e.2 ∈ names ∧ e.1 ∈ childPreds conns e.2 := by
+  simp only [Graph.edges, childGraph, List.mem_flatMap, List.mem_map] at h
+  obtain ⟨kv, ⟨n, hn, rfl⟩, p, hp, rfl⟩ := h
+  exact ⟨hn, (sortBy_perm _).mem_iff.mp hp⟩
+
+/-- when the scan succeeds, the listed order respects every registration of the children graph -/
+theorem orderScan_respects (names : List String) (conns : List (Endpoint × Endpoint)) :
+    ∀ (order done vis : List String), (∀ x, x ∈ vis ↔ x ∈ done) → (orderScan conns order (true, vis)).1 = true →
+      Graph.respects (childGraph names conns) done order = true
+  | [], _, _, _, _ => rfl
+  | c :: rest, done, vis, hv, h => by
+    simp only [orderScan, List.foldl_cons, Bool.not_true, Bool.false_eq_true, if_false] at h
+    by_cases hany : (childPreds conns c).any (fun p => !vis.contains p) = true
+    · simp only [hany, if_true] at h
+      have := orderScan_false conns rest vis
+      simp only [orderScan] at this
+      rw [this] at h; cases h
+    · simp only [hany, Bool.false_eq_true, if_false] at h
+      simp only [Graph.respects, Bool.and_eq_true, List.all_eq_true, Bool.or_eq_true, bne_iff_ne, ne_eq]
+      refine ⟨fun e he => ?_, orderScan_respects names conns rest (done ++ [c]) (c :: vis) (by
+        intro x; simp only [List.mem_cons, List.mem_append, List.mem_singleton, hv x]; tauto) h⟩
+      by_cases h2 : e.2 = c
+      · right
+        have hp := (edge_childGraph names conns e he).2
+        rw [h2] at hp
+        simp only [List.any_eq_true, Bool.not_eq_true', not_exists, not_and] at hany
+        have := hany e.1 hp
+        have hin : e.1 ∈ vis := by simpa using this
+        simpa using (hv e.1).mp hin
+      · left; exact h2
+
+/-- **a connection cycle among the children is always a compilation error** (never a result, never an internal exception):
+    neither the listed order can pass the data-flow scan, nor can the topological sorter return an order -/
+theorem sortedChildrenOrder_cycle (names ord : List String) (conns : List (Endpoint × Endpoint)) (a : String)
+    (hnd : ord.Nodup) (hall : ∀ n ∈ names, n ∈ ord) (hc : Graph.Before (childGraph names conns) a a) :
+    ∃ m, sortedChildrenOrder names ord conns = .error (.compilation m) := by
+  rw [sortedChildrenOrder_unfold]
+  by_cases hs : (orderScan conns ord (true, [])).1 = true
+  · exfalso
+    have hr := orderScan_respects names conns ord [] [] (by intro x; simp) hs
+    have := Graph.pos_of_respects (childGraph names conns) ord hnd hr
+      (fun e he => hall e.2 (edge_childGraph names conns e he).1) a a hc
+    exact Nat.lt_irrefl _ this
+  · simp only [hs, Bool.false_eq_true, if_false]
+    rw [Graph.staticOrder_none_of_cycle _ a hc]
+    exact ⟨_, rfl⟩
+
 end Bartiq
